@@ -36,6 +36,29 @@ def simpleComparable : Ty → Bool
   | .int | .nat | .mutez | .timestamp | .string | .bytes | .bool | .unit => true
   | _ => false
 
+/-- `PAIR n`: the right-comb type of the top `n` slots -/
+def pairNTy : Nat → List Ty → Option (Ty × List Ty)
+  | 2, a :: b :: s => some (.pair a b, s)
+  | n + 3, a :: s => (pairNTy (n + 2) s).map fun p => (.pair a p.1, p.2)
+  | _, _ => none
+
+def unpairNTy : Nat → Ty → Option (List Ty)
+  | 2, .pair a b => some [a, b]
+  | n + 3, .pair a b => (unpairNTy (n + 2) b).map (a :: ·)
+  | _, _ => none
+
+def getNTy : Nat → Ty → Option Ty
+  | 0, t => some t
+  | 1, .pair a _ => some a
+  | n + 2, .pair _ b => getNTy n b
+  | _, _ => none
+
+def updateNTy : Nat → Ty → Ty → Option Ty
+  | 0, e, _ => some e
+  | 1, e, .pair _ b => some (.pair e b)
+  | n + 2, e, .pair a b => (updateNTy n e b).map (.pair a)
+  | _, _, _ => none
+
 /-- join of two branch results -/
 def join : TRes → TRes → Option TRes
   | .failed, r => some r
@@ -55,6 +78,10 @@ def step : Instr → List Ty → Option TRes
   | .UNIT, s => some (.ok (.unit :: s))
   | .PAIR, a :: b :: s => some (.ok (.pair a b :: s))
   | .UNPAIR, .pair a b :: s => some (.ok (a :: b :: s))
+  | .PAIRN n, s => (pairNTy n s).map fun p => .ok (p.1 :: p.2)
+  | .UNPAIRN n, t :: s => (unpairNTy n t).map fun ts => .ok (ts ++ s)
+  | .GETN n, t :: s => (getNTy n t).map fun r => .ok (r :: s)
+  | .UPDATEN n, e :: t :: s => (updateNTy n e t).map fun r => .ok (r :: s)
   | .CAR, .pair a _ :: s => some (.ok (a :: s))
   | .CDR, .pair _ b :: s => some (.ok (b :: s))
   | .SOME, a :: s => some (.ok (.option a :: s))
